@@ -1218,3 +1218,29 @@ def unsupported(c, which="zero"):
         W = c.space(basix.ufl.mixed_element([c.el("Lagrange", 1), basix.ufl.real_element(c.cell, ())]))
         return inner(TrialFunction(W), TestFunction(W)) * dx
     raise ValueError(which)
+
+
+@builder
+def tp_two_variants(c, degree=3, arity=1):
+    """Two tensor-product elements of one degree with different 1-D bases in one integral (GLL-warped arguments,
+    equispaced coefficient, Legendre-based geometry is not available: geometry follows the mesh)."""
+    ct = basix.CellType[c.cell]
+    ea = basix.ufl.wrap_element(basix.create_tp_element(basix.ElementFamily.P, ct, degree, basix.LagrangeVariant.gll_warped))
+    eb = basix.ufl.wrap_element(basix.create_tp_element(basix.ElementFamily.P, ct, degree, basix.LagrangeVariant.equispaced))
+    Va, Vb = c.space(ea), c.space(eb)
+    g = Coefficient(Vb)
+    u, v = TrialFunction(Va), TestFunction(Va)
+    if arity == 1:
+        return inner(g, v) * dx + inner(grad(g), grad(v)) * dx
+    return g * inner(u, v) * dx
+
+
+@builder
+def expr_two_meshes(c, which=0):
+    """Expressions involving two distinct meshes (coefficients living on different meshes)."""
+    ce2 = basix.ufl.element("Lagrange", c.cell, 1, shape=(c.gdim,))
+    mesh2 = Mesh(ce2)
+    f = Coefficient(c.V("Lagrange", 1))
+    g = Coefficient(FunctionSpace(mesh2, basix.ufl.element("Lagrange", c.cell, 2)))
+    e = [lambda: f * g, lambda: g * f + f, lambda: grad(f) * g][which]()
+    return (e, _ref_points(c.cell, "interior", 3))
